@@ -127,6 +127,9 @@ def check_cost_case(case):
         return [], st
     rb = svc.run(js, "balanced_market", case["extra"])
     rg = svc.run(js, "greedy", case["extra"])
+    for r_, nm in ((rb, "balanced_market"), (rg, "greedy")):
+        if str(r_.get("error") or "").startswith("Timeout"):
+            return [("C11/%s/crash" % nm, "run raised %s" % r_["error"])], st
     if rb.get("error") or rg.get("error") or rb["aborted"] or rg["aborted"]:
         st["skipped"] += 1
         return [], st
